@@ -1,7 +1,7 @@
 SPECIFICATION FairSpec
 CONSTANTS
   P = 2
-  J = 2
+  JobIds = {0, 1}
   R = 1
   BossWorks = TRUE
 PROPERTY Termination
